@@ -426,6 +426,49 @@ func c06Leaves() []c06Leaf {
 	}
 }
 
+// ---------- deterministic reporting ----------
+
+// c06Collector keeps, per violation key, the finding with the smallest order
+// string, so that the reported instance does not depend on worker timing.
+type c06Collector struct {
+	mu    sync.Mutex
+	best  map[string]c06Finding
+	count map[string]int64
+}
+
+type c06Finding struct {
+	ord, desc string
+	replay    any
+}
+
+func (k *c06Collector) add(key, ord, desc string, replay any) {
+	k.mu.Lock()
+	defer k.mu.Unlock()
+	if k.best == nil {
+		k.best = map[string]c06Finding{}
+		k.count = map[string]int64{}
+	}
+	k.count[key]++
+	if old, ok := k.best[key]; !ok || ord < old.ord {
+		k.best[key] = c06Finding{ord, desc, replay}
+	}
+}
+
+func (k *c06Collector) flush(c *verifmc.Check) {
+	k.mu.Lock()
+	defer k.mu.Unlock()
+	keys := make([]string, 0, len(k.best))
+	for key := range k.best {
+		keys = append(keys, key)
+	}
+	sort.Strings(keys)
+	for _, key := range keys {
+		f := k.best[key]
+		c.Violation(key, fmt.Sprintf("%s (%d failing cases of this class)", f.desc, k.count[key]), f.replay)
+	}
+	k.best, k.count = nil, nil
+}
+
 // ---------- shared state ----------
 
 type c06Ent struct {
@@ -445,6 +488,7 @@ type c06Shard struct {
 
 type c06State struct {
 	c      *verifmc.Check
+	found  c06Collector
 	prods  []*c06Product
 	shards [64]c06Shard
 	// full tuple digest -> digest of the accepted full encoding + recipe
@@ -452,7 +496,7 @@ type c06State struct {
 	fullEnc  map[[16]byte][16]byte
 	fullFrom map[[16]byte]string
 
-	accepted, authPairs, payloadDup atomic.Int64
+	accepted, payloadDup atomic.Int64
 }
 
 func (st *c06State) payloadOf(prod int, idx int64) (tuple string, enc []byte, h crypto.Hash) {
@@ -470,7 +514,6 @@ func (st *c06State) caseName(prod int, idx int64) string {
 
 // record inserts one payload into the global sets and reports confirmed conflicts.
 func (st *c06State) record(e c06Ent) {
-	c := st.c
 	confirm := func(old c06Ent) (ta, tb string, ea, eb []byte, ha, hb crypto.Hash) {
 		ta, ea, ha = st.payloadOf(old.prod, old.idx)
 		tb, eb, hb = st.payloadOf(e.prod, e.idx)
@@ -478,6 +521,13 @@ func (st *c06State) record(e c06Ent) {
 	}
 	replay := func(old c06Ent) map[string]any {
 		return map[string]any{"case_a": st.caseName(old.prod, old.idx), "case_b": st.caseName(e.prod, e.idx)}
+	}
+	ord := func(old c06Ent) string {
+		a, b := fmt.Sprintf("%d|%012d", old.prod, old.idx), fmt.Sprintf("%d|%012d", e.prod, e.idx)
+		if b < a {
+			a, b = b, a
+		}
+		return "1|" + a + "|" + b
 	}
 	sh := &st.shards[e.enc[0]%64]
 	sh.mu.Lock()
@@ -488,7 +538,7 @@ func (st *c06State) record(e c06Ent) {
 	sh.mu.Unlock()
 	if ok && old.tuple != e.tuple {
 		if ta, tb, ea, eb, _, _ := confirm(old); ta != tb && bytes.Equal(ea, eb) {
-			c.Violation("inject:payload-collision", fmt.Sprintf("two different payloads share the payload encoding %s: %s vs %s", verifmc.Hex(ea), ta, tb), replay(old))
+			st.found.add("inject:payload-collision", ord(old), fmt.Sprintf("two different payloads share the payload encoding %s: %s vs %s", verifmc.Hex(ea), ta, tb), replay(old))
 		}
 	}
 	sh = &st.shards[e.hash[0]%64]
@@ -500,7 +550,7 @@ func (st *c06State) record(e c06Ent) {
 	sh.mu.Unlock()
 	if ok && old.tuple != e.tuple {
 		if ta, tb, _, _, ha, hb := confirm(old); ta != tb && ha == hb {
-			c.Violation("hash:payload-field-ignored", fmt.Sprintf("PayloadHash %s is shared by two different payloads: %s vs %s", ha, ta, tb), replay(old))
+			st.found.add("hash:payload-field-ignored", ord(old), fmt.Sprintf("PayloadHash %s is shared by two different payloads: %s vs %s", ha, ta, tb), replay(old))
 		}
 	}
 	sh = &st.shards[e.tuple[0]%64]
@@ -515,16 +565,16 @@ func (st *c06State) record(e c06Ent) {
 		if old.hash != e.hash || old.enc != e.enc {
 			ta, tb, ea, eb, ha, hb := confirm(old)
 			if ta == tb && ha != hb {
-				c.Violation("hash:depends-on-authorization", fmt.Sprintf("the same payload %s hashes to %s and %s in cases that differ only in authorization", ta, ha, hb), replay(old))
+				st.found.add("hash:depends-on-authorization", ord(old), fmt.Sprintf("the same payload %s hashes to %s and %s in cases that differ only in authorization", ta, ha, hb), replay(old))
 			} else if ta == tb && !bytes.Equal(ea, eb) {
-				c.Violation("payload:depends-on-authorization", fmt.Sprintf("the same payload %s has two payload encodings in cases that differ only in authorization", ta), replay(old))
+				st.found.add("payload:depends-on-authorization", ord(old), fmt.Sprintf("the same payload %s has two payload encodings in cases that differ only in authorization", ta), replay(old))
 			}
 		}
 	}
 }
 
 // noteAccepted: no two accepted byte strings may decode to the same transaction.
-func (st *c06State) noteAccepted(fullTuple string, enc []byte, from string) {
+func (st *c06State) noteAccepted(fullTuple string, enc []byte, ord, from string) {
 	td, ed := c06Digest(fullTuple), c06DigestB(enc)
 	st.fullMu.Lock()
 	old, ok := st.fullEnc[td]
@@ -535,8 +585,12 @@ func (st *c06State) noteAccepted(fullTuple string, enc []byte, from string) {
 	}
 	st.fullMu.Unlock()
 	if ok && old != ed {
-		st.c.Violation("canon:two-encodings", fmt.Sprintf("two different accepted byte strings decode to the same transaction (%s and %s)", oldFrom, from),
-			map[string]any{"a": oldFrom, "b": from, "b_hex": hex.EncodeToString(enc)})
+		a, b := oldFrom, from
+		if b < a {
+			a, b = b, a
+		}
+		st.found.add("canon:two-encodings", ord, fmt.Sprintf("two different accepted byte strings decode to the same transaction (%s and %s)", a, b),
+			map[string]any{"a": a, "b": b})
 	}
 }
 
@@ -572,7 +626,11 @@ func (st *c06State) checkTx(prod int, idx int64) {
 	p := st.prods[prod]
 	tx := p.at(idx)
 	name := func() string { return st.caseName(prod, idx) }
-	replay := func() map[string]any { return map[string]any{"product": p.name, "digits": verifmc.Digits(p.radices, idx, nil)} }
+	ord := fmt.Sprintf("0|%d|%012d", prod, idx)
+	bad := func(key, desc string) {
+		c.Outcome("VIOLATING-" + key)
+		st.found.add(key, ord, name()+": "+desc, map[string]any{"product": p.name, "digits": verifmc.Digits(p.radices, idx, nil)})
+	}
 	c.Eval(1)
 	pt, at := c06Tuple(tx)
 	c.Distinct(pt + "#" + at)
@@ -583,77 +641,72 @@ func (st *c06State) checkTx(prod int, idx int64) {
 		c.Stricter(fmt.Sprintf("encoder refuses a menu structure: %v", pv))
 		return
 	}
+	ok := true
 	reps := 1
 	if c06HasMultiMap(tx) {
 		reps = 8
 	}
-	for r := 0; r < reps; r++ {
+	for r := 0; r < reps && ok; r++ {
 		if again := p.at(idx).AsVersioned().marshal(); !bytes.Equal(again, enc) {
-			c.Outcome("encode:nondeterministic")
-			c.Violation("encode:nondeterministic", fmt.Sprintf("%s: two encodings of the same transaction differ: %s vs %s", name(), verifmc.Hex(enc), verifmc.Hex(again)), replay())
-			return
+			bad("encode:nondeterministic", fmt.Sprintf("two encodings of the same transaction differ: %s vs %s", hex.EncodeToString(enc), hex.EncodeToString(again)))
+			ok = false
 		}
 	}
 	var pub []byte
 	if pv := verifmc.Catch(func() { pub = p.at(idx).AsVersioned().Marshal() }); pv != nil {
-		c.Outcome("roundtrip:own-encoding-rejected")
-		c.Violation("roundtrip:own-encoding-rejected", fmt.Sprintf("%s: Marshal() self-check refuses the encoder's own output: %v", name(), pv), replay())
-		return
-	} else if !bytes.Equal(pub, enc) {
-		c.Violation("encode:nondeterministic", fmt.Sprintf("%s: Marshal() and marshal() differ", name()), replay())
-		return
+		bad("roundtrip:own-encoding-rejected", fmt.Sprintf("Marshal() self-check refuses the encoder's own output: %v", pv))
+		ok = false
+	} else if ok && !bytes.Equal(pub, enc) {
+		bad("encode:nondeterministic", "Marshal() and marshal() differ")
+		ok = false
 	}
-	dec, err := UnmarshalVersionedTransaction(enc)
-	if err != nil {
-		c.Outcome("roundtrip:own-encoding-rejected")
-		c.Violation("roundtrip:own-encoding-rejected", fmt.Sprintf("%s: decoder refuses the encoder's own output (%d bytes): %v", name(), len(enc), err), replay())
-		return
+	if dec, err := UnmarshalVersionedTransaction(enc); err != nil {
+		bad("roundtrip:own-encoding-rejected", fmt.Sprintf("decoder refuses the encoder's own output (%d bytes): %v", len(enc), err))
+		ok = false
+	} else {
+		if pt2, at2 := c06Tuple(&dec.SignedTransaction); pt2 != pt || at2 != at {
+			bad("roundtrip:field-mismatch", fmt.Sprintf("decode(encode(x)) != x: %s#%s vs %s#%s", pt, at, pt2, at2))
+			ok = false
+		}
+		if re := dec.marshal(); !bytes.Equal(re, enc) {
+			bad("roundtrip:remarshal-differs", "decoded transaction re-encodes to different bytes")
+			ok = false
+		}
+		var h1, h2 crypto.Hash
+		if pv := verifmc.Catch(func() { h1, h2 = dec.PayloadHash(), p.at(idx).AsVersioned().PayloadHash() }); pv == nil && h1 != h2 {
+			bad("hash:roundtrip", "decoded transaction has a different PayloadHash")
+			ok = false
+		}
 	}
-	pt2, at2 := c06Tuple(&dec.SignedTransaction)
-	if pt2 != pt || at2 != at {
-		c.Outcome("roundtrip:field-mismatch")
-		c.Violation("roundtrip:field-mismatch", fmt.Sprintf("%s: decode(encode(x)) != x: %s#%s vs %s#%s", name(), pt, at, pt2, at2), replay())
-		return
-	}
-	if re := dec.marshal(); !bytes.Equal(re, enc) {
-		c.Outcome("roundtrip:remarshal-differs")
-		c.Violation("roundtrip:remarshal-differs", fmt.Sprintf("%s: decoded transaction re-encodes to different bytes", name()), replay())
-		return
-	}
-	// payload
+	// payload: recorded in the global sets even when the round trip failed
 	var pm []byte
 	var ph crypto.Hash
-	if pv := verifmc.Catch(func() { pm = ver.PayloadMarshal(); ph = ver.PayloadHash() }); pv != nil {
-		c.Outcome("payload:own-encoding-rejected")
-		c.Violation("payload:own-encoding-rejected", fmt.Sprintf("%s: PayloadMarshal self-check failed: %v", name(), pv), replay())
+	if pv := verifmc.Catch(func() { pm = ver.payloadMarshal(); ph = ver.PayloadHash() }); pv != nil {
+		bad("payload:own-encoding-rejected", fmt.Sprintf("PayloadHash self-check failed: %v", pv))
 		return
 	}
-	if dec.PayloadHash() != ph {
-		c.Violation("hash:roundtrip", fmt.Sprintf("%s: decoded transaction has a different PayloadHash", name()), replay())
-		return
+	if pdec, err := UnmarshalVersionedTransaction(pm); err != nil {
+		bad("payload:own-encoding-rejected", fmt.Sprintf("payload encoding is refused by the decoder: %v", err))
+		ok = false
+	} else if ppt, pat := c06Tuple(&pdec.SignedTransaction); ppt != pt || pat != "S0[]" {
+		bad("payload:field-mismatch", fmt.Sprintf("payload encoding decodes to %s#%s, expected %s with no authorization", ppt, pat, pt))
+		ok = false
 	}
-	pdec, err := UnmarshalVersionedTransaction(pm)
-	if err != nil {
-		c.Violation("payload:own-encoding-rejected", fmt.Sprintf("%s: payload encoding is refused by the decoder: %v", name(), err), replay())
-		return
+	if ok {
+		if at == "S0[]" {
+			c.Outcome("ok:unsigned")
+		} else if tx.AggregatedSignature != nil {
+			c.Outcome("ok:aggregated")
+		} else {
+			c.Outcome("ok:signature-maps")
+		}
+		st.accepted.Add(1)
 	}
-	if ppt, pat := c06Tuple(&pdec.SignedTransaction); ppt != pt || pat != "S0[]" {
-		c.Violation("payload:field-mismatch", fmt.Sprintf("%s: payload encoding decodes to %s#%s, expected %s with no authorization", name(), ppt, pat, pt), replay())
-		return
-	}
-	if at == "S0[]" {
-		c.Outcome("ok:unsigned")
-	} else if tx.AggregatedSignature != nil {
-		c.Outcome("ok:aggregated")
-	} else {
-		c.Outcome("ok:signature-maps")
-	}
-	st.accepted.Add(1)
 	st.record(c06Ent{tuple: c06Digest(pt), hash: ph, enc: c06DigestB(pm), prod: prod, idx: idx})
 }
 
 // judgeBytes applies oracle 4 to one byte string.
-func (st *c06State) judgeBytes(b []byte, from func() string) string {
+func (st *c06State) judgeBytes(b []byte, ord string, from func() string) string {
 	var ver *VersionedTransaction
 	var err error
 	if pv := verifmc.Catch(func() { ver, err = UnmarshalVersionedTransaction(b) }); pv != nil {
@@ -664,7 +717,7 @@ func (st *c06State) judgeBytes(b []byte, from func() string) string {
 	}
 	var re []byte
 	if pv := verifmc.Catch(func() { re = ver.marshal() }); pv != nil {
-		st.c.Violation("canon:accepted-unencodable", fmt.Sprintf("%s: accepted transaction cannot be encoded: %v", from(), pv), map[string]any{"from": from(), "bytes_hex": hex.EncodeToString(b)})
+		st.found.add("canon:accepted-unencodable", ord, fmt.Sprintf("%s: accepted transaction cannot be encoded: %v", from(), pv), map[string]any{"from": from(), "bytes_hex": hex.EncodeToString(b)})
 		return "accept:VIOLATING"
 	}
 	if !bytes.Equal(re, b) {
@@ -674,12 +727,12 @@ func (st *c06State) judgeBytes(b []byte, from func() string) string {
 		} else if len(re) > len(b) {
 			key = "canon:reencode-longer"
 		}
-		st.c.Violation(key, fmt.Sprintf("%s: decoder accepts %d bytes that re-encode to %d different bytes (%s)", from(), len(b), len(re), verifmc.Hex(re)),
+		st.found.add(key, ord, fmt.Sprintf("%s: decoder accepts %d bytes that re-encode to %d different bytes (%s)", from(), len(b), len(re), verifmc.Hex(re)),
 			map[string]any{"from": from(), "bytes_hex": hex.EncodeToString(b), "reencoded_hex": hex.EncodeToString(re)})
 		return "accept:VIOLATING"
 	}
 	pt, at := c06Tuple(&ver.SignedTransaction)
-	st.noteAccepted(pt+"#"+at, b, from())
+	st.noteAccepted(pt+"#"+at, b, ord, from())
 	return "accept"
 }
 
@@ -780,6 +833,7 @@ func TestMC_C06(t *testing.T) {
 			break
 		}
 	}
+	st.found.flush(c)
 	var distinctPayloads int
 	for i := range st.shards {
 		distinctPayloads += len(st.shards[i].byTuple)
@@ -854,7 +908,7 @@ func TestMC_C06(t *testing.T) {
 		keys := map[string]struct{}{}
 		var cases, acc int64
 		run := func(b []byte, kind string, pos int, from func() string) {
-			out := st.judgeBytes(b, from)
+			out := st.judgeBytes(b, fmt.Sprintf("2|%04d|%s|%06d|%x", j.seed, kind, pos, c06DigestB(b)), from)
 			cases++
 			if strings.HasPrefix(out, "accept") {
 				acc++
@@ -898,6 +952,7 @@ func TestMC_C06(t *testing.T) {
 		}
 		mu.Unlock()
 	})
+	st.found.flush(c)
 	c.Set("byte_level_seeds", len(seeds))
 	c.Set("byte_level_cases", byteCases)
 	c.Set("byte_level_accepted", byteAccepted)
